@@ -78,6 +78,7 @@ def run(repo, rep, tier):
     r6 = rep.rule('C16.R6', 'stop/start symmetry')
     lis = repo.cls(LS, 'WBEMListener')
     hnd = repo.cls(LS, 'ListenerRequestHandler')
+    per_instance_sync_state(repo, rep)
 
     def m(name):
         f = lis.methods.get(name)
@@ -457,3 +458,57 @@ def run(repo, rep, tier):
                         stop.node.lineno, '%s is set by start() but not '
                         'reset on the stop path: the listener cannot be '
                         'started again cleanly' % fld)
+
+
+def per_instance_sync_state(repo, rep):
+    """C16.R7: the stop event of a stoppable thread (and any other
+    synchronisation object) belongs to one thread object.  Created in the
+    class body it is shared by every thread object of the process: after
+    the first stop() every later callback thread sees 'stopped' at once,
+    leaves its loop at the first idle timeout, and indications that are
+    acknowledged afterwards are never delivered."""
+    r7 = rep.rule('C16.R7', 'synchronisation objects are created per '
+                  'instance, not in the class body')
+    mod = repo.module(LS)
+    SYNC = ('threading.Event', 'threading.Lock', 'threading.RLock',
+            'threading.Condition', 'threading.Semaphore', 'queue.Queue',
+            'Event', 'Lock', 'RLock', 'Condition', 'Queue')
+    per_inst = 0
+    for c in mod.classes.values():
+        for st in c.node.body:
+            tg = []
+            if isinstance(st, ast.Assign):
+                tg, val = st.targets, st.value
+            elif isinstance(st, ast.AnnAssign) and st.value is not None:
+                tg, val = [st.target], st.value
+            else:
+                continue
+            r7.sites += 1
+            shared = isinstance(val, ast.Call) and dotted(val.func) in SYNC
+            r7.ob(not shared, '%s.%s' % (c.name, norm(tg[0])))
+            if shared:
+                rep.finding(r7, c.name, norm(st, 80), 'shared-sync-object',
+                            LS, st.lineno,
+                            '%s is created once in the class body and '
+                            'shared by all %s objects: setting it for one '
+                            'thread (stop) is seen by every later thread, so '
+                            'a restarted listener\'s callback thread ends '
+                            'at its first idle timeout and accepted '
+                            'indications are never delivered' % (
+                                norm(tg[0]), c.name))
+        init = c.methods.get('__init__')
+        if init is not None:
+            for n in walk_no_nested(init.node):
+                if isinstance(n, ast.Assign) and \
+                        isinstance(n.value, ast.Call) and \
+                        dotted(n.value.func) in SYNC and \
+                        (dotted(n.targets[0]) or '').startswith('self.'):
+                    per_inst += 1
+    # the stop flag read by the consumer loop must exist per thread object
+    r7.sites += 1
+    r7.ob(per_inst >= 1, 'per-instance-event', {'created_in_init': per_inst})
+    if per_inst < 1:
+        rep.finding(r7, 'StoppableThread', 'stop event', 'no-instance-event',
+                    LS, 1, 'no synchronisation object is created in an '
+                    '__init__ of the listener module: the stop flag of the '
+                    'callback thread is not per thread object')
